@@ -369,6 +369,113 @@ theorem fastMultiply_spec_isSome (hroot : RootOK root) (a b : List K)
     simp only [specTransform, hk, FieldOps.ofField_zero, hl, hr', hc, Option.bind_eq_bind, Option.bind_some,
       Option.pure_def, Option.isSome_some]
 
+/-! ### operands over different fields: the NTT-based product reduces to the same-field one -/
+section Mixed
+variable {K₁ K₂ : Type} [Field K₁] [Field K₂]
+variable (root₁ : Nat → Option K₁) (root₂ : Nat → Option K₂)
+
+theorem evens_map {α β : Type} (f : α → β) (l : List α) : evens (l.map f) = (evens l).map f := by
+  fun_induction evens l with
+  | case1 => rfl
+  | case2 x => rfl
+  | case3 x y t ih => simp [evens, ih]
+
+theorem odds_map {α β : Type} (f : α → β) (l : List α) : odds (l.map f) = (odds l).map f := by
+  fun_induction odds l with
+  | case1 => rfl
+  | case2 x => rfl
+  | case3 x y t ih => simp [odds, ih]
+
+theorem butterflies_hom (φ : K₁ →+* K) (w pw : K₁) (e o : List K₁) :
+    butterflies FK (φ w) (φ pw) (e.map φ) (o.map φ)
+      = ((butterflies (FieldOps.ofField K₁ root₁) w pw e o).1.map φ,
+         (butterflies (FieldOps.ofField K₁ root₁) w pw e o).2.map φ) := by
+  induction e generalizing pw o with
+  | nil => simp [butterflies]
+  | cons x xs ih =>
+    cases o with
+    | nil => simp [butterflies]
+    | cons y ys =>
+      simp only [List.map_cons, butterflies, FieldOps.ofField_mul, FieldOps.ofField_add, FieldOps.ofField_sub]
+      rw [show φ pw * φ w = φ (pw * w) from (map_mul φ pw w).symm, ih]
+      simp
+
+theorem evalAtPowers_hom (φ : K₁ →+* K) (k : Nat) (w : K₁) (xs : List K₁) :
+    evalAtPowers FK k (φ w) (xs.map φ) = (evalAtPowers (FieldOps.ofField K₁ root₁) k w xs).map φ := by
+  induction k generalizing w xs with
+  | zero => rfl
+  | succ k ih =>
+    unfold evalAtPowers
+    simp only [FieldOps.ofField_mul, FieldOps.ofField_one]
+    rw [evens_map, odds_map, ← map_mul, ih, ih]
+    have := butterflies_hom root root₁ φ w 1
+      (evalAtPowers (FieldOps.ofField K₁ root₁) k (w * w) (evens xs))
+      (evalAtPowers (FieldOps.ofField K₁ root₁) k (w * w) (odds xs))
+    rw [map_one] at this
+    rw [this]
+    simp
+
+/-- the roots tables agree along the embedding -/
+def RootCompat (φ : K₁ →+* K) (root₁ : Nat → Option K₁) (root : Nat → Option K) : Prop :=
+  ∀ n, root n = (root₁ n).map φ
+
+theorem specNtt_hom (φ : K₁ →+* K) (hc : RootCompat φ root₁ root) (xs : List K₁) :
+    specNtt FK (xs.map φ) = (specNtt (FieldOps.ofField K₁ root₁) xs).map (List.map φ) := by
+  unfold specNtt
+  simp only [List.length_map, FieldOps.ofField_rootOfUnity, hc xs.length]
+  split
+  · rfl
+  · split
+    · rfl
+    · split
+      · rfl
+      · cases root₁ xs.length with
+        | none => rfl
+        | some w => simp [evalAtPowers_hom root root₁ φ]
+
+theorem resize_map (φ : K₁ →+* K) (a : List K₁) (n : Nat) : resize (a.map φ) n 0 = (resize a n 0).map φ := by
+  simp [resize, List.map_take]
+
+theorem degree_map (φ : K₁ →+* K) (a : List K₁) :
+    degree FK (a.map φ) = degree (FieldOps.ofField K₁ root₁) a := by
+  unfold degree
+  rw [← normalize_map root root₁ φ a, List.length_map]
+
+/-- `fast_multiply<FF2>` with operands over different fields, each transformed over its own field, is the same-field
+    `fast_multiply` on the embedded operands -/
+theorem fastMultiplyG_eq (φ₁ : K₁ →+* K) (φ₂ : K₂ →+* K) (h1 : RootCompat φ₁ root₁ root) (h2 : RootCompat φ₂ root₂ root)
+    (a : List K₁) (b : List K₂) :
+    fastMultiplyG (FieldOps.ofField K₁ root₁) (FieldOps.ofField K₂ root₂) (fun x y => φ₁ x * φ₂ y)
+      (specTransform (FieldOps.ofField K₁ root₁)) (specTransform (FieldOps.ofField K₂ root₂)) (specTransform FK) a b
+      = fastMultiply FK (specTransform FK) (a.map φ₁) (b.map φ₂) := by
+  unfold fastMultiply fastMultiplyG
+  simp only [FieldOps.ofField_zero, specTransform, degree_map root root₁ φ₁ a, degree_map root root₂ φ₂ b,
+    resize_map, specNtt_hom root root₁ φ₁ h1, specNtt_hom root root₂ φ₂ h2]
+  split
+  · rfl
+  · cases specNtt (FieldOps.ofField K₁ root₁) (resize a _ 0) with
+    | none => rfl
+    | some l =>
+      cases specNtt (FieldOps.ofField K₂ root₂) (resize b _ 0) with
+      | none => rfl
+      | some r =>
+        simp only [Option.map_some, Option.bind_eq_bind, Option.bind_some, FieldOps.ofField_mul_fn, List.zipWith_map]
+
+/-- `multiply<FF2>` with operands over different fields -/
+theorem multiplyG_eq (φ₁ : K₁ →+* K) (φ₂ : K₂ →+* K) (h1 : RootCompat φ₁ root₁ root) (h2 : RootCompat φ₂ root₂ root)
+    (threshold : Int) (a : List K₁) (b : List K₂) :
+    multiplyG (FieldOps.ofField K₁ root₁) (FieldOps.ofField K₂ root₂) FK (fun x y => φ₁ x * φ₂ y) threshold
+      (specTransform (FieldOps.ofField K₁ root₁)) (specTransform (FieldOps.ofField K₂ root₂)) (specTransform FK) a b
+      = multiply FK threshold (specTransform FK) (a.map φ₁) (b.map φ₂) := by
+  have hf := fastMultiplyG_eq root root₁ root₂ φ₁ φ₂ h1 h2 a b
+  have hn := naiveMultiplyG_eq root φ₁ φ₂ root₁ root₂ a b
+  unfold multiply multiplyG
+  unfold fastMultiply at hf
+  unfold naiveMultiply at hn
+  rw [degree_map root root₁ φ₁ a, degree_map root root₂ φ₂ b, hf, hn]
+
+end Mixed
+
 /-! ### a concrete roots table over `ℚ` (lengths 1 and 2) for non-vacuity examples -/
 
 def exampleRoot : Nat → Option ℚ := fun n => if n = 1 then some 1 else if n = 2 then some (-1) else none
